@@ -1,8 +1,10 @@
 package main
 
 import (
+	goErr "errors"
 	"fmt"
 	"net"
+	"strings"
 
 	"github.com/cockroachdb/errors"
 )
@@ -203,6 +205,25 @@ func emptyTextCases(prop string, g *Gen) []*Case {
 		// empty branch: there the text at an unknowing process differs on the unchanged tree, an
 		// observation outside the properties' "regular text = non-empty"; see DESIGN 14.3)
 	}
+	if prop == "C04" {
+		// library types whose encoder sends the text for processes that do not know them, over
+		// branch / cause texts that are empty or begin or end with a newline
+		for _, t := range []string{"", "\nx", "x\n", "a\n\nb", "out:\n"} {
+			t := t
+			q := fmt.Sprintf("%q", t)
+			shapes = append(shapes,
+				shape{"join(new " + q + ", new b)", func() error { return errors.Join(errors.New(t), errors.New("b")) }, nil},
+				shape{"join(goerr " + q + ", goerr b, goerr c)", func() error { return errors.Join(goErr.New(t), goErr.New("b"), goErr.New("c")) }, nil},
+				shape{"wrap(join(goerr " + q + ", new b))", func() error { return errors.Wrap(errors.Join(goErr.New(t), errors.New("b")), "ctx") }, nil},
+			)
+			if t != "" && t[0] != '\n' {
+				shapes = append(shapes,
+					shape{"join(new a, wrap(new " + q + "))", func() error { return errors.Join(errors.New("a"), errors.Wrap(errors.New(t), "w")) }, nil},
+					shape{"newf %w(new " + q + ")", func() error { return errors.Newf("x: %w", errors.New(t)) }, nil},
+				)
+			}
+		}
+	}
 	var cases []*Case
 	n := 0
 	for _, sh := range shapes {
@@ -215,6 +236,20 @@ func emptyTextCases(prop string, g *Gen) []*Case {
 		case "C04":
 			fams := familiesOf(e)
 			for _, u := range subsets(fams, g.rng, len(fams) <= 6, 8) {
+				if strings.Contains(sh.name, `new ""`) || strings.Contains(sh.name, `goerr ""`) || strings.Contains(sh.name, `"\nx"`) {
+					// an empty or newline-led branch that is itself carried opaquely renders differently
+					// inside a join the intermediary knows (the observation of DESIGN 14.3, outside
+					// regular text): only the subsets that leave the leaf types known
+					leafUnknown := false
+					for _, k := range u {
+						if strings.HasSuffix(k, "errorString") || strings.HasSuffix(k, "leafError") {
+							leafUnknown = true
+						}
+					}
+					if leafUnknown {
+						continue
+					}
+				}
 				c := &Case{ID: fmt.Sprintf("emptytext%d", n), Err: e, NoModel: true, Rec: rec, Tags: u}
 				c.Cmd = L(Sym("special"), Str("emptytext"), Str(sh.name), Strs(u))
 				c.Real = obsCase4(e, u)
@@ -235,4 +270,36 @@ func emptyTextCases(prop string, g *Gen) []*Case {
 		}
 	}
 	return cases
+}
+
+// deepStackCases: the same ten-deep helper chain reached through two different callers, so that
+// two errors have stacks of equal depth whose innermost frames coincide and whose outer frames
+// differ (anything keyed on a prefix of the stack confuses them).  Judged by the C15 oracles.
+func deepStackCases() []*Case {
+	var cases []*Case
+	for i, mk := range []func() error{deepViaAlpha, deepViaBeta, deepViaAlpha, deepViaBeta} {
+		e := mk()
+		if i >= 2 {
+			e = errors.Join(errors.WithStack(e), mk())
+		}
+		c := &Case{ID: fmt.Sprintf("deepstack%d", i), Err: e, NoModel: true, Rec: &R{Op: "special:deepstack"}}
+		c.Cmd = L(Sym("special"), Str("deepstack"), Nat(i))
+		c.Real = L(Sym("res"), L(Sym("special")))
+		cases = append(cases, c)
+	}
+	return cases
+}
+
+//go:noinline
+func deepViaAlpha() error { return deepChain(9) }
+
+//go:noinline
+func deepViaBeta() error { return deepChain(9) }
+
+//go:noinline
+func deepChain(n int) error {
+	if n == 0 {
+		return errors.New("deep")
+	}
+	return deepChain(n - 1)
 }
